@@ -150,20 +150,24 @@ Section Sim.
   (* ---- named functions ------------------------------------------------------------------------------------------ *)
   Lemma m_params_eq ps : forall acc loc s,
     m_params ps acc loc s =
-    let '(s', l, lc) := r_params ps s in (s', acc ++ l, fold_left (fun a kv => assign (fst kv) (snd kv) a) lc loc).
+    xdo (s', l, lc) <- r_params ps s;
+    XOk (s', acc ++ l, fold_left (fun a kv => assign (fst kv) (snd kv) a) lc loc).
   Proof.
-    induction ps as [|[n|x] r IH]; intros acc loc s; simpl.
+    induction ps as [|[n|x|] r IH]; intros acc loc s; simpl.
     - rewrite app_nil_r. reflexivity.
-    - destruct (popn n s) as [s1 popped]. rewrite IH. destruct (r_params r s1) as [[s2 more] lc].
+    - destruct (popn n s) as [s1 popped]. rewrite IH. destruct (r_params r s1) as [[[s2 more] lc]| |]; simpl; try reflexivity.
       rewrite app_assoc. reflexivity.
-    - destruct (pop1 s) as [s1 v]. rewrite IH. destruct (r_params r s1) as [[s2 more] lc]. reflexivity.
+    - destruct (pop1 s) as [s1 v]. rewrite IH. destruct (r_params r s1) as [[[s2 more] lc]| |]; reflexivity.
+    - destruct (pop_star s) as [[s1 popped]|]; simpl; try reflexivity.
+      rewrite IH. destruct (r_params r s1) as [[[s2 more] lc]| |]; simpl; try reflexivity.
+      rewrite app_assoc. reflexivity.
   Qed.
 
   Lemma named_sim c s :
     core_ok_list true (c_body c) = true -> m_named_body mrec c s = r_named rrec c s.
   Proof.
     intro Hc. unfold m_named_body, r_named, bind_all. rewrite m_params_eq.
-    destruct (r_params (c_params c) s) as [[s1 ps] loc]. simpl.
+    destruct (r_params (c_params c) s) as [[[s1 ps] loc]| |]; simpl; try reflexivity.
     unfold with_stack, with_locals, with_context, with_scope, with_registered, bracket.
     match goal with |- xbind (mrec true _ ?A) _ = _ => set (S0 := A) end.
     match goal with |- context [rrec (c_body c) ?B] => replace B with S0 by (apply state_ext; reflexivity) end.
